@@ -15,6 +15,7 @@ in both configurations has two definitions.  What the table cannot exclude — c
 both builds on the same operations against the one model (the correspondence of this check).
 -/
 import TypedPathVerif.Generated.Sites
+import TypedPathVerif.Generated.Api
 
 namespace TP.C20
 
@@ -40,5 +41,9 @@ theorem no_runtime_feature_test : cfgMacroFeatureUses = 0 := by decide
 `no_std` switch -/
 theorem cfg_sites_nonempty :
     cfgSites.length ≥ 10 ∧ cfgSites.any (fun s => s.inner && s.applied == 1) = true := by decide
+
+/-- every public method the `base` group of source files declares now is called by the harness
+(regenerated table, gen/api.py): a method added without a transcript line breaks this -/
+theorem api_exercised_base : Generated.apiUnexercised_base = [] := rfl
 
 end TP.C20
